@@ -48,6 +48,14 @@ def classify(cond, BOARD_LOOP, MV):
         for x, y in ((c[2][0], c[2][1]), (c[2][1], c[2][0])) if len(c[2]) == 2 else ():
             if y == none and match(call('board::Board::piece_on', V('b'), dst), x) is not None:
                 return 'not-capture' if c[1].endswith('::eq') else 'capture'
+    # `moved.is_some() && moved.unwrap() == Piece::Pawn`
+    if match(call('core::option::Option::<T>::is_some', call('board::Board::piece_on', V('b'), src)), c) is not None:
+        return 'src-some'
+    if c[0] == 'call' and 'PartialEq' in c[1] and (c[1].endswith('::eq') or c[1].endswith('::ne')) and len(c[2]) == 2:
+        unw = call('core::option::Option::<T>::unwrap', call('board::Board::piece_on', V('b'), src))
+        for x, y in ((c[2][0], c[2][1]), (c[2][1], c[2][0])):
+            if match(unw, x) is not None and y == ENUM('piece::Piece', 'Pawn'):
+                return 'pawn-move' if c[1].endswith('::eq') else 'not-pawn-move'
     # the same tests spelled with `match` / `matches!` / `if let`: the Option tag and the piece inside it
     if c[0] == 'discr':
         if match(call('board::Board::piece_on', V('b'), src), c[1]) is not None:
@@ -73,6 +81,10 @@ def move_kind_decide(facts, ELEM, mm_disc, MV, ismove, pawn, capture, rights, un
         k = classify(c, None, MV)
         if k == 'pawn-move':
             return as_bool(pawn, vals)
+        if k == 'not-pawn-move':
+            return as_bool(not pawn, vals)
+        if k == 'src-some':
+            return as_bool(True, vals) if pawn else None
         if k == 'capture':
             return as_bool(capture, vals)
         if k == 'not-capture':
